@@ -33,9 +33,9 @@ from ..models import traces as M
 PAL = {
     # index 0 is the non-event / zero value so shrinking moves towards "nothing happens"
     "bool": [0, 1, 0, 0, 1, 0, 0, 0, 1, 0, 0, 0],
-    "real": [0.0, 1.0, 0.0, -1.0, 0.5, 0.0, 2.0, -0.5, 1.5, 0.0, 3.0, 0.25],
-    "int": [0, 1, 0, 2, -1, 0, 3, 1, 0, -2, 0, 1],
-    "nondy": [0.0, 0.1, 0.0, -0.7, 1.1, 0.0, 2.2, 0.3, 0.0, -1.3, 0.6, 0.0],
+    "real": [0.0, 1.0, 0.0, -1.0, 0.5, 1.0, 2.0, 0.0, 1.5, 1.0, -0.5, 0.25],
+    "int": [0, 1, 0, 2, -1, 1, 3, 0, 1, -2, 0, 1],
+    "nondy": [0.0, 0.1, 0.0, -0.7, 1.1, 0.1, 2.2, 0.0, 0.3, 0.1, -1.3, 0.6],
 }
 SHAPES = [[], [1], [2], [3], [2, 2], [2, 3]]
 DTS = [1.0, 0.5, 0.25, 2.0, 0.1, 1.3, 0.3]
@@ -239,7 +239,8 @@ def functional_case(draw, tier="quick"):
     if matchy and draw(st.integers(0, 5)) == 0:
         amp = draw(st.sampled_from([1, 2, -1]))  # integer amplitude
     tmax = 40 if tier == "quick" else 80
-    steps = draw(st.lists(_pool, min_size=1, max_size=tmax))
+    nsteps = draw(st.one_of(st.integers(1, 6), st.integers(4, tmax), st.integers(4, tmax)))
+    steps = draw(st.lists(_pool, min_size=nsteps, max_size=nsteps))
     case = {
         "fn": fn, "f64": f64, "obs_kind": okind, "shape": draw(st.sampled_from(SHAPES)),
         "steps": steps, "amp": amp,
@@ -375,7 +376,7 @@ def _view_op(red, model, op, case, prec_data, stats, what):
         t = float(times) if mode == "scalar" else float(times[idx])
         key = (t, eidx)
         if key not in cache:
-            cache[key] = model.view_element(t, tolv, work, eidx)
+            cache[key] = model.view_element(t, tolv, work, eidx, scalar=(mode == "scalar"))
         cands, c = cache[key]
         seen_k.add(round(t / dt, 3))
         if model.taint[eidx]:
@@ -531,6 +532,8 @@ def run_reducer(case):
             cls.append(k)
     if ever_cleared_mid:
         cls.append("clear_mid")
+    cls.append("nt_hist" if nt_hist else "no_nt_hist")
+    cls.append("nt_read" if nt_read else "no_nt_read")
     cls.append(f"N={maxn if maxn <= 3 else '4+'}")
     return {"nt": bool(nt_hist and nt_read), "cls": cls, "amb": stats["amb"]}
 
@@ -578,16 +581,22 @@ def _fwd_strategy():
     return st.tuples(st.just("fwd"), _pool, _pool).map(list)
 
 
-def _op_strategy():
+def _inner_op():
     fwd = _fwd_strategy()
     return st.one_of(
         fwd, fwd, fwd, fwd, fwd,
         _view_strategy(), _view_strategy(), _view_strategy(),
         st.tuples(st.just("dump")).map(list),
         st.tuples(st.sampled_from(["peek", "latest"])).map(list),
+        st.tuples(st.just("inplace"), st.booleans()).map(list),
+    )
+
+
+def _reset_op():
+    return st.one_of(
+        st.tuples(st.just("clear"), st.booleans(), st.integers(-6, 5)).map(list),
         st.tuples(st.just("clear"), st.booleans(), st.integers(-6, 5)).map(list),
         st.tuples(st.just("dt"), st.integers(0, len(DTS) - 1), st.booleans()).map(list),
-        st.tuples(st.just("inplace"), st.booleans()).map(list),
     )
 
 
@@ -604,7 +613,7 @@ def _config(draw, kind=None):
         "cls": kind,
         "f64": draw(st.integers(0, 4)) == 0,
         "dt": draw(st.sampled_from(DTS + [1.0, 0.5])),
-        "dur": draw(st.sampled_from(["0", "dt", "3dt", "3dt", "2.5dt", "6dt"])),
+        "dur": draw(st.sampled_from(["3dt", "6dt", "2.5dt", "dt", "0", "3dt", "dt"])),
         "inclusive": draw(st.booleans()),
         "inplace": draw(st.booleans()),
         "obs_kind": okind,
@@ -626,12 +635,22 @@ def _config(draw, kind=None):
 @st.composite
 def reducer_case(draw, tier="quick"):
     case = _config(draw)
-    maxops = 30 if tier == "quick" else 70
-    ops = draw(st.lists(_op_strategy(), min_size=2, max_size=maxops))
-    if draw(st.integers(0, 9)) < 7:
-        # construction, not rejection: start with a few folds so that reads see real history
-        pre = draw(st.lists(_fwd_strategy(), min_size=3, max_size=9))
-        ops = pre + ops
+    inner = 12 if tier == "quick" else 30
+    nep = draw(st.sampled_from([1, 1, 2, 2, 3]))
+    ops = []
+    if draw(st.integers(0, 5)) == 0:  # reset / reads on a reducer that has seen nothing yet
+        ops += draw(st.lists(st.one_of(_reset_op(), _view_strategy(), st.just(["dump"]), st.just(["peek"])),
+                             min_size=1, max_size=3))
+    for e in range(nep):
+        body = draw(st.lists(_inner_op(), min_size=2, max_size=inner))
+        if draw(st.integers(0, 9)) < 8:
+            # construction, not rejection: a few folds first so that reads see real history
+            body = draw(st.lists(_fwd_strategy(), min_size=3, max_size=8)) + body
+        ops += body
+        if e < nep - 1:
+            ops.append(draw(_reset_op()))
+            if draw(st.integers(0, 4)) == 0:
+                ops.append(draw(_reset_op()))
     case["ops"] = ops
     return case
 
@@ -639,7 +658,9 @@ def reducer_case(draw, tier="quick"):
 @st.composite
 def view_case(draw, tier="quick"):
     case = _config(draw)
-    case["dur"] = draw(st.sampled_from(["dt", "3dt", "3dt", "2.5dt", "6dt", "6dt"]))
+    case["dur"] = draw(st.sampled_from(["3dt", "6dt", "2.5dt", "dt", "3dt", "6dt"]))
+    if case["dur"] == "dt":
+        case["inclusive"] = True  # two slots: the smallest record with something to interpolate
     nf = draw(st.integers(2, 12 if tier == "quick" else 30))
     ops = [draw(_fwd_strategy()) for _ in range(nf)]
     nv = draw(st.integers(1, 8 if tier == "quick" else 20))
